@@ -700,6 +700,7 @@ def run(tier):
     check_rle_structure(rep)
     from props import pokevc
     pokevc.check_poke(rep, 'C09', tier)        # the cell-writing kernel of poke(): exactly the named cells, f(old) in each
+    pokevc.check_move(rep, 'C09')              # move(): one block copy, between the banks / offsets the spec names
     quick = tier == 'quick'
     n, bad = rle_bounded(quick)
     rep.bounded.append({'function': 'skoolkit.snapshot.Z80._make_z80_ram_block / Z80._decompress', 'contract': 'decompress(compress(d)) == d; length prefix / end marker; bytes in 0..255',
@@ -739,6 +740,14 @@ def replay(path):
         doc = json.load(f)
     case = doc.get('case')
     print('replaying', doc.get('key'), case)
+    if isinstance(case, dict) and 'move_spec' in case:
+        from props import pokevc
+        r = pokevc.replay_move({}, '')
+        print(r['diffs'])
+        if r['diffs']:
+            print('VIOLATION property=C09 replay=%s' % path)
+            return 1
+        return 0
     if isinstance(case, dict) and 'poke_spec' in case:
         import random
         import skoolkit.snapshot as S
